@@ -169,19 +169,27 @@ add("C03",
     "interpreter translations with the command dictionary and balanced n-ary splitting) - all stages but fold_constants, which is "
     "an oracle. Proved for all inputs: reduction keeps the expression and has one row per utilized command (C01 theorems); "
     "build_cas_expression means the stack; build_agraph_stack returns a scoped stack whose LAST row, after AGraph's constant "
-    "renumbering, means the expression (constants = the expression's constants in stack order); insert_subtraction/"
-    "replace_integer_powers preserve the value. PARTIAL (named _partial): automatic_simplify and the whole pipeline preserve the "
-    "value relative to an explicit list of 27 identities and to the contract of fold_constants; the identities are jointly valid "
-    "only in the degenerate algebra (proved: they encode x/x = 1 and 0*y = 0), so this certifies which rewrites are used, not a "
-    "pointwise statement; domain bookkeeping, fold_constants and termination are covered by the oracle only. Tie: every stage "
-    "of the real simplify compared with the model as trees/arrays (the checked model additionally asserts the merge assumption); "
-    "oracle: well-formedness, no more constants, 10 s alarm, pointwise agreement of constant-free stacks at admissible points, "
-    "constant fitting for polynomial stacks (algebraic candidates then Levenberg-Marquardt).",
-    "Trusted: Coq kernel + vm_compute; fold_constants as an oracle; numpy evaluation in the oracle with tolerances 1e-6 "
-    "(pointwise) / 1e-7 (fits); the partial theorems are relative to cas_laws (see DESIGN). F15 (SAFE_POWER simplified as POWER) "
-    "fixed in 18430d3. Axiom-free.",
-    "Rocq/Coq proof (full for reduction/interpreter/optional modifications; relative and named partial for the rewrite core) + "
-    "stage-wise differential correspondence + numeric oracle")
+    "renumbering, means the expression; insert_subtraction/replace_integer_powers preserve the value; automatic_simplify REFINES "
+    "the expression pointwise over the reals (values in option R with strict operations: wherever the original is a finite real the "
+    "result is the same real) whenever the three power identities are applied to integer exponents only - proved through 32 "
+    "identities/refinements that are themselves proved for that algebra (Proofs/CasReal.v); the integer-exponent guard provably "
+    "never fires on expressions whose power nodes carry integer-leaf exponents, in particular on every stack without power "
+    "operators, so for those the headline theorem speaks about the model of the code as written: at every point and constant "
+    "setting where the ORIGINAL STACK evaluates to a finite real, the simplified expression evaluates to the same real. "
+    "PARTIAL (named _partial): the whole pipeline is a refinement relative to the contract of fold_constants; for non-integer "
+    "exponents only 'rewrites by the listed identities read unconditionally', a reading proved degenerate (0 = 1); the property's "
+    "'both finite, generic constants' clause for power operators, termination (fuel) and floating point are covered by the "
+    "oracle only. The merge functions' shape assumption is a model flag (chk) that the correspondence exercises; where the checked "
+    "model answers, the unchecked one provably gives the same answer. Tie: every stage of the real simplify compared with the "
+    "model as trees/arrays, with the guard switched on exactly for power-free stacks; oracle: well-formedness, no more constants, "
+    "10 s alarm, pointwise agreement of constant-free stacks at admissible points, constant fitting for polynomial stacks.",
+    "Trusted: Coq kernel + vm_compute; the standard library's real-number axioms (ClassicalDedekindReals.sig_forall_dec, "
+    "sig_not_dec, Classical_Prop.classic, FunctionalExtensionality.functional_extensionality_dep) for the theorems over R only; "
+    "fold_constants as an oracle; numpy evaluation in the oracle with tolerances 1e-6 (pointwise) / 1e-7 (fits); option R ignores "
+    "rounding and overflow. F15 (SAFE_POWER simplified as POWER) fixed in 18430d3.",
+    "Rocq/Coq proof (full for reduction/interpreter/optional modifications and for the rewrite core on integer exponents, as a "
+    "pointwise refinement over the reals; named partial for the pipeline and for general exponents) + stage-wise differential "
+    "correspondence + numeric oracle")
 
 add("C04",
     "Coq theorems over a tape model of ComponentGenerator / AGraphGenerator / the five AGraphMutation kinds (command, node, "
